@@ -10,11 +10,15 @@ MANIFEST = dict(
          "sequence is in the legal language (one start, bodies with more_body, one final; start_response once before the first "
          "bytes, clean Latin-1 headers, no hop-by-hop), and for every fault (send raising at call n, producer raising at item k, "
          "disconnect after m chunks, server closing the WSGI iterable after n items) what was emitted is a legal prefix with nothing "
-         "after the final event. The model is compared event by event with the live classes under the same injected faults.",
+         "after the final event. file_disposition_clean: the constructor of a file response refuses exactly the Latin-1 (download or "
+         "file) names that carry CR, LF or NUL, and every response that is built has a Content-Disposition value without them. "
+         "The model is compared event by event with the live classes under the same injected faults; file names over an alphabet "
+         "with CR, LF, NUL, quote, non-Latin-1 text are run through both constructors exhaustively up to length 3.",
     note="Modelled, not verified: the asyncio scheduling of the disconnect watcher (a disconnect is noticed at the next loop "
          "test after the watcher ran), json.dumps/str.encode/urllib quote/http.HTTPStatus (inputs computed by the harness), "
          "str.lower() on ASCII header names. Domain: status 100-999; developer-supplied header names are ASCII tokens that are not "
-         "hop-by-hop and header/cookie text is Latin-1 without control characters (developer configuration).",
+         "hop-by-hop and header text handed to a constructor is Latin-1 without control characters (developer configuration; cookie "
+         "names/values and file names are NOT assumed clean: the library escapes or refuses them).",
     technique="Coq proof (recogniser invariants over the response processes, prefix closure) + executable model/implementation correspondence with fault injection",
     ref="5/C05")
 RULE = ("cases: every response class x constructor arguments (status codes incl. unknown ones, header dicts incl. mixed-case and "
